@@ -52,6 +52,7 @@ func c08Configs(t *rapid.T) []c08Config {
 		{name: "schema[s0]", schema: [][]string{{"s0"}}},
 		{name: "schema[s0,s1]", schema: [][]string{{"s0", "s1"}}},
 		{name: "schema[s0]+[s0,s2]", schema: [][]string{{"s0"}, {"s2", "s0"}}},
+		{name: "schema[s1,s0]+[s0]", schema: [][]string{{"s1", "s0"}, {"s0"}}},
 		{name: "client[s1]", client: []model.ClientIndex{{Columns: []model.ColumnKey{ck("s1", nil)}}}},
 		{name: "client[s1,s2]+[e]", client: []model.ClientIndex{{Columns: []model.ColumnKey{ck("s1", nil), ck("s2", nil)}}, {Columns: []model.ColumnKey{ck("e", nil)}}}},
 		{name: "client[opt]", client: []model.ClientIndex{{Columns: []model.ColumnKey{ck("opt", nil)}}}},
